@@ -64,6 +64,9 @@ class EcuSharedDataRaw(DiagLayerRaw):
             if not isinstance(dv_proxy, OdxLinkRef):
                 result.update(dv_proxy._build_odxlinks())
 
+        for variable_group in self.variable_groups:
+            result[variable_group.odx_id] = variable_group
+
         return result
 
     def _resolve_odxlinks(self, odxlinks: OdxLinkDatabase) -> None:
